@@ -15,7 +15,7 @@ def configs(tier):
         out.append(dict(kind=kind, n=3, cfg=dict(cfg, read=True), hidden=True, d=0, assertions=0, judge="c02"))
         out.append(dict(kind=kind, n=4, cfg=cfg, hidden=False, d=0, assertions=1 if kind == "mixin" else 0, judge="c02"))
     # user node classes with their own comparison / truth value / container protocol are node classes like any other
-    for kind in ("trap:light:falsy", "trap:light:eq", "trap:eq", "trap:all", "trap:light:len0"):
+    for kind in ("trap:light:falsy", "trap:light:eq", "trap:eq", "trap:all", "trap:light:len0", "trap:tuple0", "trap:tuple2"):
         out.append(dict(kind=kind, n=3, cfg=dict(CFG), hidden=False, d=0, assertions=0, judge="c02"))
         if tier == "thorough" or kind in ("trap:light:eq", "trap:light:falsy"):
             out.append(dict(kind=kind, n=4, cfg=dict(CFG, extras=False), hidden=False, d=0, assertions=0, judge="c02"))
